@@ -5,8 +5,9 @@ CONSTANTS
   Defs <- MCDefs
   Ctrs <- MCCtrs
   Reqs = {0, 500, 1500}
+  ClassDeviation = "none"
   c1 = c1
   c2 = c2
   c3 = c3
 SYMMETRY Symm
-INVARIANTS Inv_BalloonsDisjoint Inv_BalloonsWithinAllowed Inv_FreeCpusAreUnowned Inv_OneBalloonPerCtr Inv_SharedIdleNotOwned Inv_SharedIdleCoversScope Inv_MinMaxCpus Inv_MinMaxInstances Inv_NonEmptyHasCpus Inv_Quiescent
+INVARIANTS Inv_BalloonsDisjoint Inv_BalloonsWithinAllowed Inv_FreeCpusAreUnowned Inv_OneBalloonPerCtr Inv_SharedIdleNotOwned Inv_SharedIdleCoversScope Inv_MinMaxCpus Inv_MinMaxInstances Inv_NonEmptyHasCpus Inv_CpuClass Inv_Quiescent
